@@ -23,7 +23,15 @@ open CaddyModel.C19
 #print axioms strict_binds_catch_all
 #print axioms strict_binds_policy_name_partial
 #print axioms client_auth_not_bypassed_partial
+#print axioms built_auth_eq_spec
+#print axioms active_iff_requests_client_cert
+#print axioms no_mode_requires_certificate
+#print axioms verifier_installed_iff
+#print axioms active_after_provision_partial
+#print axioms strict_default_iff_some_policy_requests_cert
 #print axioms live_index_breaks_first_match
 #print axioms strict_binds_routing_host_full_fails
 #print axioms strict_unicode_fold_full_fails
 #print axioms client_auth_not_bypassed_full_fails
+#print axioms active_after_provision_full_fails
+#print axioms swallowed_ca_load_error
